@@ -21,10 +21,13 @@ ID = "C23"
 RULE = ("cases = generated flat designs with weighted basic levels (crossed, uncrossed or both), optional derived "
         "factors over them (within/transition) and constraints on unweighted or derived levels, paired with the "
         "copy-expanded twin; non-trivial = both exhausted (<= CAP twin sequences) and compared, weighted design has "
-        ">= 2 sequences; distinct = spec hashes")
+        ">= 2 sequences; appended: weighted derived level crossed over a weighted uncrossed factor, several crossings "
+        "with a weighted factor in only some of them, Nest; distinct = spec hashes")
 ASSUMPTIONS = ["pycryptosat is a correct SAT solver", "copy semantics as in the Level documentation"]
-MINIMUMS = {"quick": {"pairs_compared": 70, "with_crossed_weight": 35, "with_uncrossed_weight": 25, "with_derived_over_weighted": 20},
-            "thorough": {"pairs_compared": 245, "with_crossed_weight": 122, "with_uncrossed_weight": 87, "with_derived_over_weighted": 70}}
+MINIMUMS = {"quick": {"pairs_compared": 100, "with_crossed_weight": 35, "with_uncrossed_weight": 25, "with_derived_over_weighted": 20,
+                      "appended_wd": 10, "appended_mc": 8, "appended_nest": 2},
+            "thorough": {"pairs_compared": 350, "with_crossed_weight": 122, "with_uncrossed_weight": 87, "with_derived_over_weighted": 70,
+                         "appended_wd": 35, "appended_mc": 20, "appended_nest": 3}}
 CASE_TIMEOUT = 240
 CAP = 900
 
@@ -101,6 +104,55 @@ def cases(tier, seed):
                 cons.append(gen.gen_constraint(rng, sp, others, 4, types=["AtMostKInARow", "ExactlyK", "Pin"], boundary=False))
         b["cons"] = cons
         out.append({"cls": "K2", "spec": sp})
+    # appended: (wd) a weighted DERIVED level in the crossing, computed from a weighted basic factor outside the
+    # crossing; (mc) several crossings with a weighted basic factor in only some of them; (nest) weighted factors
+    # in the outer / inner block of a Nest. "Not in every crossing" is the documented condition for copies.
+    for i in range(330 if tier == "thorough" else 66):
+        rng = random.Random("c23x/%s/%d" % (seed, i))
+        kind = ["wd", "mc", "nest"][i % 3]
+        sp = {"factors": {}, "order": [], "block": None}
+        F = sp["factors"]
+
+        def basic(name, i_, nl, weighted):
+            F[name] = gen._basic(rng, i_, False, nl=nl)
+            if weighted:
+                rng.choice(F[name]["levels"])[1] = 2
+            sp["order"].append(name)
+
+        def cross(design, crossings, cons, ctor="CrossBlock", mode="weight"):
+            return {"op": "cross", "design": design, "crossings": crossings, "cons": cons, "rcc": True, "mode": mode,
+                    "align": "equal", "ctor": ctor}
+        if kind == "wd":
+            basic("A", 0, rng.choice([2, 3]), True)
+            basic("B", 1, 2, rng.random() < 0.3)
+            f = gen.add_derived(rng, sp, "W", "within", deps=rng.choice([["A"], ["A", "B"]]), else_level=False)
+            ks = sorted(f["table"])
+            for j in range(len(f["levels"])):
+                f["table"][ks[(j * len(ks)) // len(f["levels"])]] = j     # every level producible
+            rng.choice(f["levels"])[1] = 2
+            crossing = rng.choice([["W"], ["W"], ["B", "W"]])
+            if "B" in crossing:
+                for l in F["B"]["levels"]:
+                    l[1] = 1
+            design = ["A", "B", "W"]
+            if rng.random() < 0.4:
+                rng.shuffle(design)
+            sp["block"] = cross(design, [crossing], [])
+        elif kind == "mc":
+            basic("A", 0, rng.choice([2, 2, 3]), True)
+            basic("B", 1, 2, rng.random() < 0.3)
+            third = rng.random() < 0.4
+            if third:
+                basic("C", 2, 2, False)
+            crossings = rng.choice([[["A"], ["B"]], [["B"], ["A"]]] + ([[["A", "C"], ["B"]], [["A"], ["B", "C"]], [["A"], ["B"], ["C"]]] if third else []))
+            sp["block"] = cross(list(sp["order"]), crossings, [], ctor="MultiCrossBlock", mode=rng.choice(["weight", "repeat"]))
+        else:
+            basic("A", 0, 2, rng.random() < 0.8)
+            basic("B", 1, 2, rng.random() < 0.25)
+            if all(w == 1 for f_ in F.values() for _, w in f_["levels"]):
+                F["A"]["levels"][0][1] = 2
+            sp["block"] = {"op": "nest", "outer": cross(["A"], [["A"]], []), "inner": cross(["B"], [["B"]], []), "cons": []}
+        out.append({"cls": "x-" + kind, "spec": sp})
     return out
 
 
@@ -122,10 +174,11 @@ def run_case(case):
                          "msg": "the %s design is refused (%s in %s: %s), the other constructs"
                                 % ("weighted" if e1 else "copy-expanded", bad["exc"], bad["func"], bad["msg"][:120])})
         return {"nontrivial": False, "violations": viol, "counters": {"rejected_by_constructor": 1}}
-    crossing = spec["block"]["crossings"][0]
+    crossings = [c for b in S.walk_blocks(spec["block"]) if b["op"] == "cross" for c in b["crossings"] if c]
     wfactors = {n for (n, l) in copies}
-    crossed_w = [n for n in wfactors if n in crossing]
-    uncrossed_w = [n for n in wfactors if n not in crossing]
+    # copies of a level are one solution only if the factor is in EVERY crossing (Level documentation)
+    crossed_w = [n for n in wfactors if crossings and all(n in c for c in crossings)]
+    uncrossed_w = [n for n in wfactors if n not in crossed_w]
     viol = []
     T1, T2 = b1.trials_per_sample(), b2.trials_per_sample()
     if T1 != T2:
@@ -171,6 +224,8 @@ def run_case(case):
             counters["with_uncrossed_weight"] = 1
         if any(f["kind"] == "derived" and set(f["deps"]) & wfactors for f in spec["factors"].values()):
             counters["with_derived_over_weighted"] = 1
+        if case.get("cls", "").startswith("x-"):
+            counters["appended_" + case["cls"][2:]] = 1
     n_w = None
     return {"nontrivial": compared, "violations": viol[:4], "counters": counters,
             "sample": {"spec": D.small(spec), "twin_levels": {n: twin["factors"][n]["levels"] for n in wfactors},
